@@ -156,7 +156,7 @@ def resolve_reload(case):
 
 def plan(tier, seed):
     n = 16 if tier == 'quick' else 48
-    per = 14 if tier == 'quick' else 120
+    per = 7 if tier == 'quick' else 120
     return [{'shard': i, 'cases': per} for i in range(n)]
 
 
@@ -193,7 +193,7 @@ def judge(res: Result, case, rec):
                     sent = [(tt, ty) for tt, ln, ty in s['tx'] if tt <= t + 0.001]
                     o_at = [tt for tt, ty in sent if ty == rw.OPEN]
                     k_at = [tt for tt, ty in sent if ty == rw.KEEPALIVE]
-                    alive = s['eof_at'] is None or s['eof_at'] >= t - 0.001
+                    alive = (s['eof_at'] is None or s['eof_at'] >= t - 0.001) and (s.get('closed_local_at') is None or s['closed_local_at'] >= t - 0.001)
                     if got_open and o_at and k_at and max(k_at) >= min(o_at) and alive:
                         good = True
                 if not good:
@@ -207,6 +207,9 @@ def judge(res: Result, case, rec):
                 for s in rec['sessions']:
                     created = [x['t'] for x in ev if x['kind'] == 'remote-connected' and x['session'] == s['id']][0]
                     if created > t - 0.3:
+                        continue
+                    if s.get('closed_local_at') is not None and s['closed_local_at'] <= t + 0.5:
+                        res.ok('close-on-idle')  # the remote closed it itself
                         continue
                     # only a connection exabgp actually used (it wrote an OPEN on it)
                     if not any(m[1] == rw.OPEN and m[0] <= t for m in s['rx']):
